@@ -494,7 +494,13 @@ func orchestrate(check *Check, tier string, seed int64, nworkers int, budgetOver
 		}
 		outFile := filepath.Join(tmp, fmt.Sprintf("res-%d.json", slot))
 		os.Remove(outFile)
-		args := append([]string{"--tier", tier, "--worker", fmt.Sprintf("%d/%d", shard, of), "--out", outFile, "--deadline", fmt.Sprintf("%f", budget.Seconds())}, extra...)
+		// the journal re-run writes a file per case and is much slower: it gets four times the budget, so that
+		// it reaches the case that killed the first run also on a slow machine
+		dl := budget.Seconds()
+		if journal {
+			dl *= 4
+		}
+		args := append([]string{"--tier", tier, "--worker", fmt.Sprintf("%d/%d", shard, of), "--out", outFile, "--deadline", fmt.Sprintf("%f", dl)}, extra...)
 		if journal {
 			jfile = filepath.Join(tmp, fmt.Sprintf("journal-%d.json", slot))
 			os.Remove(jfile)
@@ -535,6 +541,13 @@ func orchestrate(check *Check, tier string, seed int64, nworkers int, budgetOver
 				}
 				// crashed: re-run in journal mode to pinpoint the case
 				res, err2, jf := launch(i, true, skipFile)
+				if res != nil && res.Expired {
+					// the re-run ran out of time before it reached the case: nothing can be said about it in this
+					// run (the shard counts as not exhausted); never an alarm without a case that was re-executed
+					results[i] = res
+					fmt.Fprintf(os.Stderr, "bex: worker %d crashed (%v); the journal re-run hit its deadline before reaching the case: shard incomplete\n", i, err)
+					return
+				}
 				if res != nil {
 					// not reproducible: report as a crash without a case
 					results[i] = res
